@@ -407,6 +407,56 @@ def is_assertion_error(repo: Repo, name: str) -> bool:
     return "AssertionError" in exception_bases(repo, name)
 
 
+_exit_cache: dict[tuple[int, str], list[str] | None] = {}
+
+
+def exit_suppresses(repo: Repo, ci: ClassInfo) -> list[str] | None:
+    """Short names of the exception classes a `with <instance of ci>:` block swallows: `__exit__` can return a truthy value
+    while an exception is pending.  ["<bare>"] when no isinstance / issubclass test of the pending exception is implied by
+    the condition of such a return (anything is swallowed); None when `__exit__` never suppresses (or ci has none)."""
+    ck = (id(repo), ci.fq)
+    if ck in _exit_cache:
+        return _exit_cache[ck]
+    from core.guards import implies as g_implies, satisfiable
+
+    from .common import guard_formula, truth
+
+    out: list[str] | None = None
+    f = repo.lookup_method(ci, "__exit__")
+    if f is not None and not f.is_abstract and not isinstance(f.node, ast.Lambda):
+        params = f.param_names
+        t, v = (params[1], params[2]) if len(params) >= 3 and f.node.args.vararg is None else ("", "")
+        tests: list[tuple[Formula, list[str]]] = []
+        for n in own_nodes(f.node):
+            if isinstance(n, ast.Call) and isinstance(n.func, ast.Name) and n.func.id in ("issubclass", "isinstance") and len(n.args) == 2 and isinstance(n.args[0], ast.Name) and n.args[0].id in (t, v) and t:
+                xs = n.args[1].elts if isinstance(n.args[1], ast.Tuple) else [n.args[1]]
+                names = [(repo.resolve_name(f.module, x) or dotted(x) or norm(x)).split(".")[-1] for x in xs]
+                tests.append((atom(norm(n)) if n.func.id == "isinstance" else atom(f"bool({norm(n)})"), names))
+        pending = f_and([f for x in (t, v) if x for f in (f_not(atom(f"{x} is None")), atom(f"bool({x})"))])
+        caught: list[str] = []
+        for r in own_nodes(f.node):
+            if not isinstance(r, ast.Return) or r.value is None or (isinstance(r.value, ast.Constant) and not r.value.value):
+                continue
+            g = f_and([guard_formula(f, r), truth(f, r.value), pending])
+            if not satisfiable(g):
+                continue
+            hit = [names for a, names in tests if g_implies(g, a)]
+            if not hit:
+                caught = ["<bare>"]
+                break
+            caught += min(hit, key=len)
+        out = sorted(set(caught)) or None
+    _exit_cache[ck] = out
+    return out
+
+
+def suppress_call_types(repo: Repo, ctx: FuncInfo, e: ast.expr) -> list[str] | None:
+    """`contextlib.suppress(A, B)` as a context expression: the short names of A, B."""
+    if isinstance(e, ast.Call) and isinstance(e.func, (ast.Name, ast.Attribute)) and (repo.resolve_name(ctx.module, e.func) or dotted(e.func)) == "contextlib.suppress":
+        return [(repo.resolve_name(ctx.module, x) or dotted(x) or norm(x)).split(".")[-1] for x in e.args]
+    return None
+
+
 def is_generator(fi: FuncInfo) -> bool:
     return any(isinstance(n, (ast.Yield, ast.YieldFrom)) for n in own_nodes(fi.node))
 
@@ -1865,6 +1915,7 @@ class Sym:
         names: set[str] = set()
         attrs: list[ast.expr] = []
         mutated: list[ast.expr] = []
+        managers: list[ast.expr] = []
         for st_ in body:
             for n in ast.walk(st_):
                 if isinstance(n, ast.Name) and isinstance(n.ctx, ast.Store):
@@ -1877,6 +1928,9 @@ class Sym:
                     mutated.append(n.value)
                 elif isinstance(n, ast.AugAssign):
                     mutated.append(n.target)
+                elif isinstance(n, (ast.With, ast.AsyncWith)):
+                    managers += [it.context_expr for it in n.items]  # __enter__ / __exit__ run on the manager
+        self._managers_in_body = managers
         return names, attrs, mutated
 
     def havoc(self, body: list[ast.stmt], st: State, ctx: FuncInfo, n: int, skip: set[str] = frozenset()) -> None:
@@ -1890,6 +1944,12 @@ class Sym:
             cs = self.coll_state(v, st) if v is not None else None
             if cs is not None:
                 st.store[key(v)] = dc_replace(cs, exact=False, ver=cs.ver + 100 + n, complete_of=None)
+        for m in self._managers_in_body:
+            if not any(isinstance(x, ast.Call) for x in ast.walk(m)):
+                try:
+                    self._havoc_object(self.eval(m, st, ctx), st, n)
+                except Exception:  # noqa: BLE001
+                    pass
         for a in attrs:
             try:
                 b = self.eval(a.value, st, ctx)
@@ -2018,11 +2078,52 @@ class Sym:
         return after
 
     def _s_With(self, s, st, ctx):
+        swallowed: list[str] = []
         for item in s.items:
             v = self.eval(item.context_expr, st, ctx)
             if item.optional_vars is not None:
                 self.assign(item.optional_vars, v, st, ctx)
-        return self.block(s.body, st, ctx)
+            types = suppress_call_types(self.repo, ctx, item.context_expr)
+            if types is None:
+                # a context manager class of the repository: __enter__ / __exit__ may change the manager's own state, and
+                # __exit__ may swallow what the block raises
+                if isinstance(v, (Ref, Phi)):
+                    self._havoc_object(v, st, self.fresh())
+                for ci in self._manager_classes(v, item.context_expr, ctx):
+                    types = (types or []) + (exit_suppresses(self.repo, ci) or [])
+            swallowed += types or []
+        if not swallowed:
+            return self.block(s.body, st, ctx)
+        # `with m: body` where m swallows E  ==  `try: body / except E: pass`
+        ty = None if "<bare>" in swallowed else ast.Tuple(elts=[ast.Name(id=t, ctx=ast.Load()) for t in sorted(set(swallowed))], ctx=ast.Load())
+        synth = ast.Try(body=s.body, handlers=[ast.ExceptHandler(type=ty, name=None, body=[ast.Pass()])], orelse=[], finalbody=[])
+        ast.copy_location(synth, s)
+        return self._s_Try(synth, st, ctx)
+
+    def _manager_classes(self, v: Val, node: ast.expr, ctx: FuncInfo) -> list[ClassInfo]:
+        if isinstance(v, Phi):
+            out: list[ClassInfo] = []
+            for _c, a in v.alts:
+                out += [c for c in self._manager_classes(a, node, ctx) if c not in out]
+            return out
+        return self.classes_of(v, node, ctx)
+
+    def _havoc_object(self, v: Val, st: State, n: int) -> None:
+        """Forget the attributes of an object of the repository whose methods ran unseen."""
+        if isinstance(v, Phi):
+            for _c, a in v.alts:
+                self._havoc_object(a, st, n)
+            return
+        if not isinstance(v, Ref):
+            return
+        prefix = key(v) + "."
+        for k in [k for k in st.store if k.startswith(prefix)]:
+            cur = st.store[k]
+            cs = self.coll_state(cur, st)
+            if cs is not None:
+                st.store[key(cur)] = dc_replace(cs, exact=False, ver=cs.ver + 100 + n, complete_of=None)
+            elif not isinstance(cur, (FnV, ClsV)):
+                st.store[k] = Opq(f"{k}@W{n}", self.deps(cur, st), kind="attr")
 
     _s_AsyncWith = _s_With
 
